@@ -874,3 +874,61 @@ package router
 //@   captures caller != nil && !isnil(caller.Peer) && msg != nil
 //@   requires dealerNN(d) && callsInv(d)
 //@   callsite syncCancel : [timeout-is-killnowait-with-timeout-error] arg0 == d && arg1 == caller && arg2.Request == msg.Request && arg3 == wamp.CancelModeKillNoWait && arg4 == wamp.ErrTimeout && len(arg5) == 1
+
+// ---------------------------------------------------------------------------
+// Realm: authorization gate
+
+//@ immutable realm broker, dealer, authorizer, authenticators, clients, testaments, metaIDGen, actionChan, stopped, metaProcMap, metaDone, log, debug, localAuth, localAuthz, metaStrict, enableMetaKill, enableMetaModify
+
+//@ spec func authzOK(a Authorizer, id wamp.ID, details wamp.Dict, m wamp.Message) bool
+//@ spec func authzFailed(a Authorizer, id wamp.ID, details wamp.Dict, m wamp.Message) bool
+
+//@ pred authzAllowed(r *realm, s *wamp.Session, m wamp.Message) = (method(s.Peer, "IsLocal") && !r.localAuthz) || authzOK(r.authorizer, s.ID, s.Details, m)
+
+//@ pred requestOf(m wamp.Message) = is(m, *wamp.Publish) ? m.(*wamp.Publish).Request : (is(m, *wamp.Subscribe) ? m.(*wamp.Subscribe).Request : (is(m, *wamp.Unsubscribe) ? m.(*wamp.Unsubscribe).Request : (is(m, *wamp.Register) ? m.(*wamp.Register).Request : (is(m, *wamp.Unregister) ? m.(*wamp.Unregister).Request : (is(m, *wamp.Call) ? m.(*wamp.Call).Request : (is(m, *wamp.Cancel) ? m.(*wamp.Cancel).Request : (is(m, *wamp.Yield) ? m.(*wamp.Yield).Request : 0)))))))
+
+//@ pred silentPublish(m wamp.Message) = is(m, *wamp.Publish) && !optTrue(m.(*wamp.Publish).Options, "acknowledge")
+
+//@ func (r *realm) authzMessage
+//@   props C10
+//@   requires r != nil && !isnil(r.authorizer) && !isnil(r.log) && sess != nil && !isnil(sess.Peer) && !isnil(msg)
+//@   requires is(msg, *wamp.Publish) ==> msg.(*wamp.Publish) != nil
+//@   requires is(msg, *wamp.Subscribe) ==> msg.(*wamp.Subscribe) != nil
+//@   requires is(msg, *wamp.Unsubscribe) ==> msg.(*wamp.Unsubscribe) != nil
+//@   requires is(msg, *wamp.Register) ==> msg.(*wamp.Register) != nil
+//@   requires is(msg, *wamp.Unregister) ==> msg.(*wamp.Unregister) != nil
+//@   requires is(msg, *wamp.Call) ==> msg.(*wamp.Call) != nil
+//@   requires is(msg, *wamp.Cancel) ==> msg.(*wamp.Cancel) != nil
+//@   requires is(msg, *wamp.Yield) ==> msg.(*wamp.Yield) != nil
+//@   modifies ghost sendcount, all map[string]any
+//@   ensures [decision] result <==> authzAllowed(r, sess, msg)
+//@   ensures [allowed-sends-nothing] result ==> (forall c mathint :: sendcount(c) == old(sendcount(c)))
+//@   ensures [silent-publish-sends-nothing] !result && silentPublish(msg) ==> (forall c mathint :: sendcount(c) == old(sendcount(c)))
+//@   ensures [refused-one-error] !result && !silentPublish(msg) ==> sendcount(sendChan(sess)) == old(sendcount(sendChan(sess))) + 1 && (forall c mathint :: c != sendChan(sess) ==> sendcount(c) == old(sendcount(c)))
+//@   sendsite reply : [error-to-sender] ch == sendChan(sess) && !authzAllowed(r, sess, msg) && !silentPublish(msg)
+//@   sendsite reply : [error-content] is(m, *wamp.Error) && m.(*wamp.Error).Request == requestOf(msg) && m.(*wamp.Error).Error == (authzFailed(r.authorizer, sess.ID, sess.Details, msg) ? wamp.ErrAuthorizationFailed : wamp.ErrNotAuthorized)
+//@   sendsite reply : [error-type] (is(msg, *wamp.Publish) ==> m.(*wamp.Error).Type == wamp.PUBLISH) && (is(msg, *wamp.Subscribe) ==> m.(*wamp.Error).Type == wamp.SUBSCRIBE) && (is(msg, *wamp.Unsubscribe) ==> m.(*wamp.Error).Type == wamp.UNSUBSCRIBE) && (is(msg, *wamp.Register) ==> m.(*wamp.Error).Type == wamp.REGISTER) && (is(msg, *wamp.Unregister) ==> m.(*wamp.Error).Type == wamp.UNREGISTER) && (is(msg, *wamp.Call) ==> m.(*wamp.Error).Type == wamp.CALL) && (is(msg, *wamp.Cancel) ==> m.(*wamp.Error).Type == wamp.CANCEL) && (is(msg, *wamp.Yield) ==> m.(*wamp.Error).Type == wamp.YIELD)
+
+//@ iface (Authorizer) Authorize
+//@   modifies all map[string]any
+//@   ensures [decision] result0 == authzOK(recv, arg0.ID, arg0.Details, arg1)
+//@   ensures [failure] !isnil(result1) == authzFailed(recv, arg0.ID, arg0.Details, arg1)
+
+//@ pred wfMessage(m wamp.Message) = !isnil(m) && (is(m, *wamp.Publish) ==> m.(*wamp.Publish) != nil) && (is(m, *wamp.Subscribe) ==> m.(*wamp.Subscribe) != nil) && (is(m, *wamp.Unsubscribe) ==> m.(*wamp.Unsubscribe) != nil) && (is(m, *wamp.Register) ==> m.(*wamp.Register) != nil) && (is(m, *wamp.Unregister) ==> m.(*wamp.Unregister) != nil) && (is(m, *wamp.Call) ==> m.(*wamp.Call) != nil) && (is(m, *wamp.Cancel) ==> m.(*wamp.Cancel) != nil) && (is(m, *wamp.Yield) ==> m.(*wamp.Yield) != nil) && (is(m, *wamp.Error) ==> m.(*wamp.Error) != nil) && (is(m, *wamp.Goodbye) ==> m.(*wamp.Goodbye) != nil)
+
+//@ func (r *realm) handleInboundMessages
+//@   props C10
+//@   requires r != nil && r.broker != nil && r.dealer != nil && !isnil(r.log) && !isnil(r.broker.log) && !isnil(r.dealer.log) && r.broker.filterFactory != nil && sess != nil && !isnil(sess.Peer)
+//@   recvsite : [peers-deliver-well-formed-messages] assume wfMessage(m)
+//@   callsite Goodbye : [goodbye-set-before-done-closes] assume-after result != nil
+//@   callsite publish : [gate] arg1 == sess && (isnil(r.authorizer) || sess == r.metaSess || authzAllowed(r, sess, box(arg2)))
+//@   callsite subscribe : [gate] arg1 == sess && (isnil(r.authorizer) || sess == r.metaSess || authzAllowed(r, sess, box(arg2)))
+//@   callsite unsubscribe : [gate] arg1 == sess && (isnil(r.authorizer) || sess == r.metaSess || authzAllowed(r, sess, box(arg2)))
+//@   callsite register : [gate] arg1 == sess && (isnil(r.authorizer) || sess == r.metaSess || authzAllowed(r, sess, box(arg2)))
+//@   callsite unregister : [gate] arg1 == sess && (isnil(r.authorizer) || sess == r.metaSess || authzAllowed(r, sess, box(arg2)))
+//@   callsite call : [gate] arg1 == sess && (isnil(r.authorizer) || sess == r.metaSess || authzAllowed(r, sess, box(arg2)))
+//@   callsite cancel : [gate] arg1 == sess && (isnil(r.authorizer) || sess == r.metaSess || authzAllowed(r, sess, box(arg2)))
+//@   callsite yield : [gate] arg1 == sess && (isnil(r.authorizer) || sess == r.metaSess || authzAllowed(r, sess, box(arg2)))
+//@   callsite error : [gate] arg1 == sess && (isnil(r.authorizer) || sess == r.metaSess || authzAllowed(r, sess, box(arg2))) && arg2.Type == wamp.INVOCATION
+//@   callsite publish : [routed-to-own-realm] arg0 == r.broker
+//@   callsite call : [routed-to-own-realm] arg0 == r.dealer
